@@ -467,6 +467,18 @@ func laws() []law {
 	validX := func(_, x any) bool { s, ok := x.(string); return ok && utf8.ValidString(s) }
 	arrIn := func(v any) bool { return isArr(v) && noNaN(v) }
 	contIn := func(v any) bool { return (isArr(v) || isObj(v)) && noNaN(v) }
+	pairArr := func(v any) bool {
+		xs, ok := v.([]any)
+		if !ok || !noNaN(v) {
+			return false
+		}
+		for _, x := range xs {
+			if p, ok := x.([]any); !ok || len(p) == 0 {
+				return false
+			}
+		}
+		return true
+	}
 	strX := func(_, x any) bool { return isStr(x) }
 	numArr := func(v any) bool {
 		xs, ok := v.([]any)
@@ -588,6 +600,14 @@ func laws() []law {
 		{name: "index-is-slice-of-one", a: `. as $v | if $x >= 0 and $x < length or $x < 0 and -$x <= length then [.[$x]] == .[$x:($x + 1 | if . == 0 then null else . end)] else .[$x] == null end`,
 			in: arrIn, x: func(_, x any) bool { i, ok := x.(int); return ok && i > -1000 && i < 1000 }, judges: []string{"_index"}},
 		{name: "reverse-reverse", a: `(reverse | reverse) == . and (reverse | length) == length and all(range(0; length) as $i | reverse[$i] == .[length - 1 - $i]; .)`, in: arrIn, judges: []string{"reverse"}},
+		// stability: elements that compare equal keep their input order (arrays longer than the
+		// thresholds below which library sorts fall back to insertion sort are in the universe)
+		{name: "sort_by-stable", a: `sort_by(.[0])`, b: `to_entries | map([.value[0], .key, .value]) | sort | map(.[2])`, in: pairArr, judges: []string{"_sort_by"}},
+		{name: "group_by-stable", a: `group_by(.[0])`, b: `reduce sort_by(.[0])[] as $e ([]; if length > 0 and .[-1][0][0] == $e[0] then .[-1] += [$e] else . + [[$e]] end)`, in: pairArr, judges: []string{"_group_by"}},
+		{name: "unique_by-keeps-first", a: `unique_by(.[0])`, b: `group_by(.[0]) | map(.[0])`, in: pairArr, judges: []string{"_unique_by"}},
+		{name: "min_by-first-max_by-last", a: `[min_by(.[0]), max_by(.[0])]`, b: `sort_by(.[0]) | [first, last]`, in: func(v any) bool { return pairArr(v) && len(v.([]any)) > 0 }, judges: []string{"_min_by", "_max_by"}},
+		{name: "sort-stable", a: `sort`, b: `to_entries | map([.value, .key, .value]) | sort | map(.[2])`, in: arrIn, judges: []string{"sort"}},
+		{name: "unique-keeps-first", a: `unique`, b: `to_entries | map([.value, .key, .value]) | sort | reduce .[] as $e ([]; if length > 0 and .[-1][0] == $e[0] then . else . + [$e] end) | map(.[2])`, in: arrIn, judges: []string{"unique"}},
 		{name: "sort-is-sorted-permutation", a: `sort as $s | ($s | length) == length and all(range(1; $s | length) as $i | $s[$i - 1] <= $s[$i]; .) and ($s | unique) == unique`, in: arrIn, judges: []string{"sort", "unique"}},
 		{name: "floor-ceil-bracket", a: `floor <= . and . <= ceil and (ceil - floor) <= 1 and (trunc == floor or trunc == ceil)`, in: func(v any) bool { f, ok := v.(float64); return ok && !math.IsNaN(f) && !math.IsInf(f, 0) && math.Abs(f) < 1e15 }},
 		{name: "math-rounding-is-go-math", a: `[floor, ceil, round, trunc, fabs, nearbyint, rint, significand, logb]`, in: isNum, want: func(in, _ any) any {
@@ -764,6 +784,7 @@ func lawsOracle(ctx *common.Ctx, o *common.Oracle, cl []*claw) {
 		u = append(u, f, -f)
 	}
 	u = append(u, -1.5, -0.5, -86400.25, 86399.75, 1e10+0.5)
+	u = append(u, tieRichArrays(r, ctx.N(40, 400))...)
 	xs := append([]any{}, coreUniverse()...)
 	for _, s := range common.UniverseStrings() {
 		xs = append(xs, s)
@@ -888,4 +909,33 @@ func lawsOracle(ctx *common.Ctx, o *common.Oracle, cl []*claw) {
 	}
 	o.Distinct = distinct
 	o.Samples = []string{`"é漢" | length == (explode | length)`, `[[1,2],[3]] | flatten | all(.[]; type != "array")`, `"a,b, c" | (split(", ") | join(", ")) == .`}
+}
+
+
+// tieRichArrays: arrays of 13..70 elements over very few distinct keys, with members that compare
+// equal but can be told apart: [key, payload] pairs, and plain numbers in different carriers /
+// spellings (1, 1.0, json.Number "1.0", "1.00") and equal containers holding them.
+func tieRichArrays(r *common.Rand, n int) []any {
+	var out []any
+	keys := []any{0, 1, 2, "a", nil, []any{1}, 1.5}
+	plain := []any{1, 1.0, json.Number("1.0"), json.Number("1.00"), json.Number("1e0"), 2, json.Number("2.0"), "a", nil, []any{1}, []any{json.Number("1.0")}, map[string]any{"k": 1}, map[string]any{"k": json.Number("1.0")}, 0, json.Number("-0"), json.Number("0.0")}
+	for i := 0; i < n; i++ {
+		m := common.Pick(r, []int{13, 14, 16, 20, 31, 32, 33, 50, 64, 70, r.Range(13, 70)})
+		k := r.Range(1, 4)
+		if i%2 == 0 {
+			xs := make([]any, m)
+			for j := range xs {
+				xs[j] = []any{keys[r.Intn(k)], j}
+			}
+			out = append(out, xs)
+		} else {
+			off := r.Intn(len(plain))
+			xs := make([]any, m)
+			for j := range xs {
+				xs[j] = plain[(off+r.Intn(k+3))%len(plain)]
+			}
+			out = append(out, xs)
+		}
+	}
+	return out
 }
